@@ -334,7 +334,8 @@ where
         if self.time.real() >= self.end.real() {
             return Err(IVPStatus::Done);
         }
-        if (self.time + self.dt).real() >= self.end.real() {
+        let last_step = (self.time + self.dt).real() >= self.end.real();
+        if last_step {
             self.dt = self.end - self.time;
         }
 
@@ -345,7 +346,12 @@ where
         let old_state = self.state.clone();
 
         self.state += derivative * self.dt;
-        self.time += self.dt;
+        if last_step {
+            // time + (end - time) need not round to end
+            self.time = self.end;
+        } else {
+            self.time += self.dt;
+        }
 
         Ok((old_time, old_state))
     }
